@@ -355,6 +355,93 @@ pub fn generate(prop: &str, thorough: bool, rng: &mut Rng) -> Case {
             }
             clients.push(ops);
         }
+        "C06" | "C11" => {
+            // hybrid round: clients 1.. are concurrent callers of 1-2 keys; client 0 is a sequential prelude
+            let c11 = prop == "C11";
+            let keys = 2u64;
+            cfg.insert("keys".into(), keys as i64);
+            cfg.insert("mem_cap".into(), 3 + rng.below(3) as i64);
+            cfg.insert("mem_shards".into(), 1 + rng.below(2) as i64);
+            cfg.insert("inmem_mod".into(), 0);
+            cfg.insert("ondisk_mod".into(), 0);
+            cfg.insert("blocks".into(), 10);
+            cfg.insert("comp".into(), 0);
+            fit_buffers(&mut cfg, rng, false);
+            cfg.insert("hold_loads".into(), rng.below(2) as i64);
+            cfg.insert("throttle_loads".into(), if rng.chance(1, 4) { 1 } else { 0 });
+            cfg.insert("ctl_yields".into(), rng.below(8) as i64);
+            if !c11 && rng.chance(1, 5) {
+                cfg.insert("abort_fetch".into(), 1);
+            }
+            if rng.chance(1, 5) {
+                cfg.insert("live_error".into(), 300);
+                cfg.insert("live_corrupt".into(), 1);
+            }
+            let k = rng.below(keys as usize) as u64;
+            // prelude: sometimes the key is already on disk (the disk lookup then hits)
+            let mut prelude = vec![];
+            if rng.chance(1, 3) {
+                prelude.push(Op::Insert { k, ver: 0, w: 1, loc: 2, hold: false });
+                prelude.push(Op::Wait);
+            }
+            clients.push(prelude);
+            let callers = 2 + rng.below(4);
+            let fail_pct = if rng.chance(1, 3) { 30 } else { 0 };
+            for _ in 0..callers {
+                let mut ops = vec![];
+                if rng.chance(1, 3) {
+                    ops.push(Op::Yield { n: 1 + rng.below(3) as u8 });
+                }
+                let kk = if rng.chance(4, 5) { k } else { 1 - k };
+                if rng.chance(1, 4) {
+                    ops.push(Op::Get { k: kk, hold: false });
+                } else {
+                    ops.push(Op::Fetch { k: kk, ver: 0, w: 1, yields: rng.below(4) as u8, fail: rng.chance(fail_pct, 100), hold: false });
+                }
+                clients.push(ops);
+            }
+            if !c11 && cfg["hold_loads"] == 1 && rng.chance(1, 2) {
+                // one round for sure: a lookup-only caller and fetching callers register while the lookups are held
+                clients.truncate(1);
+                cfg.remove("abort_fetch");
+                let order = rng.below(3);
+                for i in 0..3 {
+                    clients.push(vec![if i == order { Op::Get { k, hold: false } } else { Op::Fetch { k, ver: 0, w: 1, yields: rng.below(3) as u8, fail: false, hold: false } }]);
+                }
+                cfg.insert("ctl_yields".into(), 6 + rng.below(6) as i64);
+            } else if c11 || rng.chance(1, 4) {
+                let mut ops = vec![Op::Yield { n: 1 + rng.below(4) as u8 }];
+                ops.push(if c11 || rng.chance(1, 2) { Op::Insert { k, ver: 0, w: 1, loc: 0, hold: false } } else { Op::Remove { k } });
+                if rng.chance(1, 2) {
+                    ops.push(Op::Get { k, hold: false });
+                }
+                clients.push(ops);
+            }
+        }
+        "C16" => {
+            // hybrid part of C16: storage filters and the listener check the lock count; the runtime reports deadlocks
+            let keys = 4 + rng.below(3) as u64;
+            cfg.insert("keys".into(), keys as i64);
+            cfg.insert("check_locks".into(), 1);
+            cfg.insert("inmem_mod".into(), 0);
+            cfg.insert("ondisk_mod".into(), if rng.chance(1, 2) { 4 } else { 0 });
+            cfg.insert("blocks".into(), 4 + rng.below(6) as i64);
+            cfg.insert("block_pages".into(), 8);
+            cfg.insert("reinsert_mod".into(), if rng.chance(1, 2) { 2 } else { 0 });
+            cfg.insert("reject_mod".into(), if rng.chance(1, 3) { 5 } else { 0 });
+            fit_buffers(&mut cfg, rng, false);
+            let od = cfg["ondisk_mod"] as u64;
+            let loc = move |k: u64| -> u8 { if od > 0 && k % od == 2 { 2 } else { 0 } };
+            let mix = Mix { insert: 45, writer: 0, get: 25, fetch: 8, contains: 2, remove: 8, clear: 1, evict_all: 5, wait: 4, reopen: 1, yld: 2 };
+            let n = (10 + rng.below(30)) * scale;
+            let mut ops = gen_ops(rng, n, keys, &mix, &[1, 1, 4], &loc);
+            for op in ops.iter_mut() {
+                if let Op::Insert { loc: 2, hold, .. } = op {
+                    *hold = false;
+                }
+            }
+            clients.push(ops);
+        }
         "C09" => {
             let keys = 8 + rng.below(9) as u64;
             cfg.insert("keys".into(), keys as i64);
